@@ -23,8 +23,8 @@ def run(job):
             return (pid, mk, "APPLY-FAILED " + r.stderr[:200], {})
         res = {}
         for q in pids:
-            rr = subprocess.run(["/venv/bin/python", "-m", "sa.check", q, "--repo", d], cwd="/verif", capture_output=True, text=True)
-            rules = sorted({l.split()[1] for l in rr.stdout.splitlines() if l.startswith("  rule ")})
+            rr = subprocess.run(["/venv/bin/python", "-m", "sa.check", q, "--scratch", "--repo", d], cwd="/verif", capture_output=True, text=True)
+            rules = sorted({l.split()[1].split("=", 1)[1] for l in rr.stdout.splitlines() if l.startswith("SCRATCH-VIOLATION")})
             res[q] = (rr.returncode, rules, [l for l in rr.stdout.splitlines() if l.startswith("ANALYSIS")][:1])
         return (pid, mk, "ok", res)
     finally:
